@@ -942,10 +942,13 @@ class DestHandler:
             self._params.acked_params.last_start_offset = offset
             self._params.acked_params.last_end_offset = offset + data_len
         if offset + data_len <= self._params.acked_params.last_start_offset:
-            # Might be a re-requested FD PDU.
-            self._params.acked_params.lost_seg_tracker.remove_lost_segment(
-                (offset, offset + data_len)
-            )
+            # Might be a re-requested FD PDU. It does not have to match a lost segment exactly: It
+            # can also cover only a part of a lost segment or span the borders of lost segments.
+            tracker = self._params.acked_params.lost_seg_tracker
+            for seg_start, seg_end in list(tracker.lost_segments.items()):
+                overlap = (max(seg_start, offset), min(seg_end, offset + data_len))
+                if overlap[0] < overlap[1]:
+                    tracker.remove_lost_segment(overlap)
 
     def _deferred_lost_segment_handling(self) -> None:
         if not self._params.acked_params.deferred_lost_segment_detection_active:
